@@ -2,9 +2,9 @@ _C18_ROOT = ["vf_c18_ops_test.go", "vf_c18_events_test.go", "vf_c18_bytes_test.g
              "vf_rauth_test.go", "vf_c07_test.go", "vf_c08_test.go", "vf_evgen_test.go"]
 prop("C18", files={"root": _C18_ROOT, "fclient": ["vf_c18_fclient_test.go"], "spec": ["vf_c18_spec_test.go"]},
      shared={"root": J + ["vf_ids_test.go"], "fclient": J + ["vf_ids_test.go"], "spec": J},
-     fuzz=[("root", "FuzzVF_C18_event_fields", 90), ("root", "FuzzVF_C18_event_bytes", 75), ("root", "FuzzVF_C18_resp", 75), ("root", "FuzzVF_C18_join", 60),
-           ("root", "FuzzVF_C18_json", 60), ("root", "FuzzVF_C18_sign", 60), ("root", "FuzzVF_C18_keys", 45),
-           ("fclient", "FuzzVF_C18_fc_request", 60), ("fclient", "FuzzVF_C18_fc_types", 60), ("spec", "FuzzVF_C18_spec_ids", 45)],
+     fuzz=[("root", "FuzzVF_C18_event_fields", 75), ("root", "FuzzVF_C18_event_bytes", 60), ("root", "FuzzVF_C18_resp", 75), ("root", "FuzzVF_C18_join", 60),
+           ("root", "FuzzVF_C18_json", 45), ("root", "FuzzVF_C18_sign", 45), ("root", "FuzzVF_C18_keys", 45),
+           ("fclient", "FuzzVF_C18_fc_request", 45), ("fclient", "FuzzVF_C18_fc_types", 45), ("spec", "FuzzVF_C18_spec_ids", 45)],
      assumptions=["a panic is observed with recover() around each library call; its signature is C18/panic/<top library function on the stack> (C18/after-<operation>/panic/<function> when an accessor that worked on an accepted event panics on the result of Redact / SetUnsigned / Sign / the headered round trip); one function is reported once per case, the entry points that reach it are recorded as classes",
                   "accepted = NewEventFromUntrustedJSON returned no error or a persistable validation error (what EventJSONs.UntrustedEvents keeps); events only NewEventFromTrustedJSON lets through are observed but not judged (its contract is previously validated JSON)",
                   "caller contracts are respected and never provoked: non-nil verifier / querier / context / providers, two state sets for the v2 resolvers, no MustGetRoomVersion / NewUserIDOrPanic on remote values, SetRoomVersion never called; CompactJSON / SortJSON / CanonicalJSONAssumeValid only behind gjson.Valid as the library itself does",
